@@ -37,6 +37,9 @@ enum Exp {
     /// GeneGenerator: source 0 Vec (OneOfCloning), 1 array macro, 2 slice (ChooseCloning);
     /// close None = with_uniform_close_probability
     Gene { source: u8, n: usize, close: Option<f32> },
+    /// the exact endpoints under an ADVERSARIAL stream (boundary words 0, MAX, ...): close probability 0 never
+    /// yields a close marker, 1 always does; Bitstring probability 0 / 1 likewise; flip rate 0 / 1 likewise
+    Endpoints { which: u8 },
 }
 
 #[derive(Serialize, Deserialize, Clone, Debug)]
@@ -103,6 +106,9 @@ fn experiments() -> Vec<Exp> {
             v.push(Exp::RandomBits { p: Some(p), via_generator: false, len });
             v.push(Exp::RandomBits { p: Some(p), via_generator: true, len });
         }
+    }
+    for which in 0..6u8 {
+        v.push(Exp::Endpoints { which });
     }
     for n in [1usize, 2, 3, 5, 8] {
         v.push(Exp::Gene { source: 3, n, close: None });
@@ -302,6 +308,48 @@ fn run_experiment(exp: &Exp, trials: u64, seed: u64) -> Option<Vec<Cell_>> {
             cell("first bit set".into(), trials, first, prob);
             cell("last bit set".into(), trials, last, prob);
         }
+        Exp::Endpoints { which } => {
+            // exact cells (p = 0 or 1): one contrary observation is a violation
+            let mut adv = simcore::SimRng::new(&simcore::RngSpec::boundary(seed, 8));
+            adv.set_cap(u64::MAX);
+            let n = (trials / 4).max(10_000);
+            match which {
+                0 | 1 => {
+                    let c = if *which == 0 { 0.0f32 } else { 1.0 };
+                    let items: Vec<PushInstruction> = (0..3).map(instr).collect();
+                    let d = IntoDistribution::<PushInstruction>::into_distribution(items).ok()?;
+                    let gg = d.into_gene_generator_with_close_probability(c);
+                    let mut closes = 0u64;
+                    for _ in 0..n {
+                        let g: PushGene = gg.sample(&mut adv);
+                        if instr_index(&g).is_none() {
+                            closes += 1;
+                        }
+                    }
+                    cell(format!("gene is a close marker (close probability {c}, adversarial stream)"), n, closes, f64::from(c));
+                }
+                2 | 3 => {
+                    let p = if *which == 2 { 0.0f64 } else { 1.0 };
+                    let mut ones = 0u64;
+                    let len = 64usize;
+                    for _ in 0..n / 64 {
+                        let b = Bitstring::random_with_probability(len, p, &mut adv);
+                        ones += b.bits.iter().filter(|x| **x).count() as u64;
+                    }
+                    cell(format!("bit is set (probability {p}, adversarial stream)"), (n / 64) * 64, ones, p);
+                }
+                _ => {
+                    let r = if *which == 4 { 0.0f32 } else { 1.0 };
+                    let parent: Vec<bool> = (0..64).map(|i| i % 3 == 0).collect();
+                    let mut flips = 0u64;
+                    for _ in 0..n / 64 {
+                        let child = WithRate::new(r).mutate(Bitstring { bits: parent.clone() }, &mut adv).ok()?.bits;
+                        flips += child.iter().zip(&parent).filter(|(a, b)| a != b).count() as u64;
+                    }
+                    cell(format!("gene flipped (rate {r}, adversarial stream)"), (n / 64) * 64, flips, f64::from(r));
+                }
+            }
+        }
         Exp::Gene { source, n, close } => {
             let n = *n;
             let items: Vec<PushInstruction> = (0..n).map(instr).collect();
@@ -445,6 +493,7 @@ impl Check for C12 {
                     Exp::RandomBits { .. } => "random-bit-probability",
                     Exp::Gene { close: Some(_), .. } => "gene-close-probability",
                     Exp::Gene { close: None, .. } => "gene-uniform-close-probability",
+                    Exp::Endpoints { .. } => "exact-endpoint-under-adversarial-stream",
                 };
                 v.push(Violation::new(
                     "configured-rate-is-applied-rate",
